@@ -250,7 +250,7 @@ example : ∃ s, TS.Reachable 1 true s ∧
       (1, .iter, .list [10, 11, 12])])) (by decide)
   exact ⟨s, hr, of_decide_eq_true hp⟩
 
-/-- FINDING F6 — the statement above FAILS for the code as it is.  Witness (threshold 1, 2 threads):
+/-- FINDING F6 (HISTORICAL: fixed in /repo by e992d9e; `fixed = false` below is the code before it) — the statement above FAILS for that code.  Witness (threshold 1, 2 threads):
 thread 0 inserts 10; thread 0 inserts 11, finds the vector full, drains it into its local set and
 drops both locks; thread 1 inserts 12 into the (now empty) small vector and returns `true`; thread
 0 stores `Large{10, 11}`; thread 1 — after its own insert returned — iterates and gets `[10, 11]`:
